@@ -15,7 +15,7 @@ def floatEq (a b : F64) : Bool :=
     -- diff < EPSILON * MIN_POSITIVE
     F64.flt diff (F64.mul F64.epsilon F64.minPositive)
   else
-    F64.flt (F64.div diff (F64.add absA absB)) F64.epsilon
+    F64.flt (F64.div diff (F64.fmin (F64.add absA absB) F64.maxVal)) F64.epsilon
 
 mutual
 /-- `impl PartialEq for Variable` (and the derived `PartialEq` of `Ast`, which compares offsets) -/
